@@ -921,7 +921,7 @@ xar_read_data(struct archive_read *a,
 abort_read_data:
 	*buff = NULL;
 	*size = 0;
-	*offset = xar->total;
+	*offset = xar->entry_total;
 	return (r);
 }
 
@@ -938,7 +938,8 @@ xar_read_data_skip(struct archive_read *a)
 		xar->entry_unconsumed);
 	if (bytes_skipped < 0)
 		return (ARCHIVE_FATAL);
-	xar->offset += bytes_skipped;
+	/* The unconsumed bytes were added to xar->offset when they were read. */
+	xar->offset += bytes_skipped - xar->entry_unconsumed;
 	xar->entry_unconsumed = 0;
 	return (ARCHIVE_OK);
 }
